@@ -38,7 +38,7 @@ def check_cleanup_guards(ctx: Ctx) -> None:
             ctx.ob("R-CLEANUP", f"{fi.qual} :: {norm(n.ast)}", heading and strong and single and val_ok,
                    "a cleanup may only re-link a heading whose *single* child is strong emphasis to that child's own children "
                    f"(heading test: {heading}, single-child test: {single}, strong test: {strong}, keeps content: {val_ok})", where(fi, n))
-    ctx.require("R-CLEANUP", "stores in doc_cleanups", n_st, 2)
+    ctx.require("R-CLEANUP", "stores in doc_cleanups", n_st, 1)
     # doc_cleanups applies only the unbold transform
     dc = repo.func("flowmark.transforms.doc_cleanups:doc_cleanups")
     calls = [norm(c.func) for c in walk_no_nested(dc.node) if isinstance(c, ast.Call)]
@@ -61,7 +61,7 @@ def check_spacing_arms(ctx: Ctx) -> None:
     arms: dict[str, list] = {}
     tests = [n for n in flow.cfg.nodes if n.kind == "test" and any(
         isinstance(x, ast.Attribute) and isinstance(x.value, ast.Name) and x.value.id == "ListSpacing" for x in ast.walk(n.ast))]
-    ctx.require("R-DECISION-spacing", "comparisons against ListSpacing members in the list renderer", len(tests), 2)
+    ctx.require("R-DECISION-spacing", "comparisons against ListSpacing members in the list renderer", len(tests), 1)
     named = set()
     for t in tests:
         for x in ast.walk(t.ast):
